@@ -16,6 +16,7 @@ structure DState where
   types : List (String × Nat) := [("T_CLOSURE", 1), ("T_CONST", 2), ("T_SEQ", 3), ("T_STR", 4), ("T_ASET", 6)]
   domorder : List String := []
   words : List String := []
+  consts : List (String × ZwVerif.Dom × Nat) := []
   fuel : Nat := 400
 
 def DState.ctx (st : DState) : Ctx :=
@@ -25,7 +26,7 @@ def DState.ctx (st : DState) : Ctx :=
     | .str => code "T_STR" | .aset => code "T_ASET" | .ext c => c
   let typeName (c : Nat) : Option String := (st.types.find? (·.2 = c)).map (·.1)
   let domRank (d : Dom) : Nat := (st.domorder.idxOf? d.label).getD 1000
-  { cfg := { typeCode := typeCode, domRank := domRank }, typeName := typeName, otherWords := st.words }
+  { cfg := { typeCode := typeCode, domRank := domRank }, typeName := typeName, otherWords := st.words, consts := st.consts }
 
 def known (ctx : Ctx) (n : Bytes) : Bool :=
   match lookupWord ctx (b2s n) with
@@ -79,6 +80,11 @@ def handleCfg (st : DState) (ws : List String) : DState :=
         | _ => none }
   | "domorder" :: rest => { st with domorder := rest }
   | "words" :: rest => { st with words := rest.map fun h => b2s (unhex h) }
+  | "consts" :: rest =>
+    { st with consts := rest.filterMap fun e =>
+        match e.splitOn "=" with
+        | [n, d, v] => v.toNat?.map fun k => (b2s (unhex n), ZwVerif.Dom.ofLabel (b2s (unhex d)), k)
+        | _ => none }
   | "fuel" :: n :: _ => { st with fuel := n.toNat?.getD st.fuel }
   | _ => st
 
